@@ -4,6 +4,7 @@ import (
 	"bytes"
 	"context"
 	"fmt"
+	"os"
 	"runtime"
 	"strings"
 	"sync"
@@ -41,6 +42,9 @@ func runC16(r *Run) error {
 		return err
 	}
 	if err := c16FreeWriters(r); err != nil {
+		return err
+	}
+	if err := c16AncestorBatches(r); err != nil {
 		return err
 	}
 	return c16Conc(r)
@@ -1140,6 +1144,123 @@ func c16FreeWriters(r *Run) error {
 		r.AddCase(fmt.Sprintf("(CWritesFree %s %s)", sim.CoqListN(idsOf(s.Canon, returned)), sim.CoqList(evs)),
 			map[string]interface{}{"kind": "free-writers", "sig": "free-writers", "type": typ, "writers": nw, "writes": len(returned), "events": len(evs)}, len(returned) >= 4)
 		r.Count("free-writers:" + typ)
+		s.Close()
+	}
+	return nil
+}
+
+// ---------------------------------------------------------------------------------------
+// Part E: merged batches that bring only ANCESTORS of the current heads (the heads do not
+// change): a store reopened with a limited Load, then LoadMoreFrom of the newest entry left
+// out.  The batch changes what queries return, so it must be announced by a replicated event
+// whose entries are visible on receipt, like any other merged batch.
+// ---------------------------------------------------------------------------------------
+func c16AncestorBatches(r *Run) error {
+	runs := 3
+	if r.Tier == "thorough" {
+		runs = 18
+	}
+	ctx := context.Background()
+	for ri := 0; ri < runs; ri++ {
+		typ := []string{"eventlog", "keyvalue"}[ri%2]
+		s, err := NewScen(1, typ, nil)
+		if err != nil {
+			return err
+		}
+		total := 5 + r.Rng.Intn(8)
+		for k := 0; k < total; k++ {
+			// distinct keys: an older entry stays visible in the view after newer ones
+			var err error
+			switch x := s.Stores[0].(type) {
+			case iface.KeyValueStore:
+				_, err = x.Put(ctx, fmt.Sprintf("e%d", k), []byte(fmt.Sprintf("v%d-%d", ri, k)))
+			case iface.EventLogStore:
+				_, err = x.Add(ctx, []byte(fmt.Sprintf("v%d-%d", ri, k)))
+			}
+			if err != nil {
+				return err
+			}
+		}
+		all := s.Stores[0].OpLog().Values().Slice()
+		keep := 1 + r.Rng.Intn(total-2)
+		if err := c13Reopen(s, 0); err != nil {
+			return err
+		}
+		st := s.Stores[0]
+		if err := st.Load(ctx, keep); err != nil {
+			return fmt.Errorf("limited load: %w", err)
+		}
+		s.Settle()
+		sub, err := st.EventBus().Subscribe([]interface{}{new(stores.EventReplicated)}, eventbus.BufSize(1024))
+		if err != nil {
+			return err
+		}
+		obs := &evObserver{}
+		stop := make(chan struct{})
+		var swg sync.WaitGroup
+		swg.Add(1)
+		go func() {
+			defer swg.Done()
+			for {
+				select {
+				case e, ok := <-sub.Out():
+					if !ok {
+						return
+					}
+					if os.Getenv("VERIF_TRACE") != "" {
+						fmt.Fprintf(os.Stderr, "C16E event %T\n", e)
+					}
+					if x := observeEvent(st, e); x != nil {
+						obs.add(*x)
+					}
+				case <-stop:
+					return
+				}
+			}
+		}()
+		before := map[string]bool{}
+		for _, e := range st.OpLog().Values().Slice() {
+			before[e.GetHash().String()] = true
+		}
+		// the newest entry that the limited load left out
+		var from ipfslog.Entry
+		for k := len(all) - 1; k >= 0; k-- {
+			if !before[all[k].GetHash().String()] {
+				from = all[k]
+				break
+			}
+		}
+		ends0 := sim.TheHooks.Count("replicator.load_end")
+		if from != nil {
+			sim.TheHooks.DirectLoads++ // a replicator request that does not go through Sync
+			st.LoadMoreFrom(ctx, uint(total), []ipfslog.Entry{from})
+		}
+		if !s.Settle() {
+			r.AddDirect("hang:load-more", "store did not settle after LoadMoreFrom", map[string]interface{}{"run": ri, "state": sim.LastSettleState})
+		}
+		ends := sim.TheHooks.Count("replicator.load_end") - ends0
+		deadline := time.Now().Add(10 * time.Second)
+		for obs.count(false) < ends && time.Now().Before(deadline) {
+			time.Sleep(2 * time.Millisecond)
+		}
+		close(stop)
+		swg.Wait()
+		_ = sub.Close()
+		var fresh []int
+		for _, e := range st.OpLog().Values().Slice() {
+			if !before[e.GetHash().String()] {
+				fresh = append(fresh, s.Canon.Hash.ID(e.GetHash().String()))
+			}
+		}
+		var ann []string
+		for _, x := range obs.snapshot() {
+			if !x.write {
+				ann = append(ann, coqNB(s.Canon, x))
+			}
+		}
+		r.AddCase(fmt.Sprintf("(CSync %s %s %s)", sim.CoqListN(fresh), sim.CoqList(ann), sim.CoqNat(ends)),
+			map[string]interface{}{"kind": "sync", "sig": "store-replicated", "route": "load-more-from", "type": typ, "total": total, "kept": keep, "fresh": len(fresh), "batches": ends, "events": len(ann)}, len(fresh) > 0)
+		r.Count(fmt.Sprintf("ancestor-batch:fresh=%v", len(fresh) > 0))
 		s.Close()
 	}
 	return nil
